@@ -48,14 +48,20 @@ pub struct ShapeCtx {
     pub naive_groups: HashMap<String, u32>,
     pub first: Option<String>,
     pub last: Option<String>,
+    /// renderings of the argument tuples seen so far: the domains must produce pairwise distinct tuples
+    pub seen: std::collections::HashSet<String>,
+    pub duplicate_tuples: u64,
 }
 
 impl ShapeCtx {
     pub fn new(thorough: bool) -> ShapeCtx {
-        ShapeCtx { thorough, evals: 0, mismatches: Vec::new(), naive_groups: HashMap::new(), first: None, last: None }
+        ShapeCtx { thorough, evals: 0, mismatches: Vec::new(), naive_groups: HashMap::new(), first: None, last: None, seen: std::collections::HashSet::new(), duplicate_tuples: 0 }
     }
     pub fn observe(&mut self, want: &str, got: &str, naive: String) {
         self.evals += 1;
+        if !self.seen.insert(want.to_string()) {
+            self.duplicate_tuples += 1;
+        }
         if want != got && self.mismatches.len() < 3 {
             self.mismatches.push((want.to_string(), got.to_string()));
         }
@@ -125,10 +131,12 @@ pub fn d_string(thorough: bool) -> Vec<String> {
         out.extend(next.iter().cloned());
         layer = next;
     }
-    out.push("1".into());
-    out.push("12".into());
-    out.push("1|2".into());
-    out.push("\"|\"".into());
+    for extra in ["1", "12", "1|2", "\"|\""] {
+        // (the last one is already among the length-3 strings: domains must stay pairwise distinct)
+        if !out.iter().any(|x| x == extra) {
+            out.push(extra.into());
+        }
+    }
     out
 }
 pub fn d_opt_u8(_t: bool) -> Vec<Option<u8>> {
